@@ -79,6 +79,37 @@ func (e *Engine) doIter1(s *slot, op Op) error {
 			e.fact("iter_abandoned_midway")
 		}
 	}
+	if op.In != 0 && len(ref) > 0 {
+		// two consumers at once: while one pass over the sequence value is under way, the same value
+		// is ranged over again (the tree is unchanged); each pass must deliver what a pass on its own does
+		at := min(max(op.Stop, 0), len(ref)-1)
+		var outer, inner []kv
+		if p := call(func() {
+			seq(func(k []byte, v int) bool {
+				outer = append(outer, kv{clone(k), v})
+				if len(outer) == at+1 {
+					seq(func(k2 []byte, v2 int) bool {
+						inner = append(inner, kv{clone(k2), v2})
+						return op.In < 0 || len(inner) < op.In
+					})
+				}
+				return true
+			})
+		}); p != "" {
+			return e.outcome("iter", what+" (nested passes)", p)
+		}
+		wantIn := ref
+		if op.In > 0 && op.In < len(ref) {
+			wantIn = ref[:op.In]
+		}
+		if !sameKVs(s.kind, inner, wantIn) {
+			return violf("%s: a pass started inside another pass over the same sequence value (after its element %d) delivered %s, expected %s", what, at+1, e.fmtSeq(s.kind, inner, 12), e.fmtSeq(s.kind, wantIn, 12))
+		}
+		if !sameKVs(s.kind, outer, ref) {
+			return violf("%s: a pass during which the same sequence value was ranged over once more (after element %d, inner pass %d) delivered %s, a pass on its own yields %s", what, at+1, op.In, e.fmtSeq(s.kind, outer, 12), e.fmtSeq(s.kind, ref, 12))
+		}
+		e.fact("iter_nested")
+	}
 	for r := 0; r < op.Re; r++ {
 		if op.Btw != 0 {
 			// the tree stays unchanged, but other read-only calls happen before the sequence is used again
